@@ -81,3 +81,16 @@ Proof. exact remove_event_exact. Qed.
 Print Assumptions C11_exchange_event.
 Print Assumptions C11_exchange_event_exact.
 Print Assumptions C11_removal_event.
+
+(** ** Batch exchange.  With an all-subscribing listener the events of Batch.Add / Remove /
+    Exchange (Relations.ExchangeBatch) are, entity by entity in processing order, exactly the
+    event of the single exchange: the difference of the entity's masks before and after, the
+    id lists of the call, old and new relation, the old target, the type bits. *)
+From Arche Require Import Model.Filter Proofs.QueryExact Proofs.CacheInv Proofs.BatchEvents.
+Theorem C11_batch_exchange_events : forall w A f add rem rel w' n evs,
+  R w A -> cache_ok w -> Forall (fun id => id < length (as_reg A)) add -> (add <> [] \/ rem <> []) ->
+  w_listener w = Some lall ->
+  op_batch_exchange w (FPlain f) add rem rel = (w', Ok (VNat n), evs) ->
+  evs = flat_map (ev_of w w' add rem) (table_ents w (get_tables w f)).
+Proof. exact batch_exchange_events_exact. Qed.
+Print Assumptions C11_batch_exchange_events.
